@@ -12,6 +12,8 @@ import Lockable.Proofs.SpecTrace
 import Lockable.Proofs.SpecTrace3
 import Lockable.Proofs.Own
 import Lockable.Proofs.Deadlock
+import Lockable.Proofs.Stream
+import Lockable.Proofs.Usable
 namespace Lockable
 
 /-- No lost wake-up, state form: in every reachable state a free per-key mutex has no sleeping waiter —
@@ -404,5 +406,26 @@ example :
     subst hw
     have := hs 2; simp only [] at this
     rw [this] at b1; simp at b1; rw [← b1] at b2; cases b2
+
+/-- **A plain lock call looks at its own key only** — in every state reachable by any sequence of API calls (other keys held,
+awaited, pinned by stream items or by suspended calls in any way): `blocking_lock`/`async_lock` without a limit gets its guard at
+once exactly when *its* key is free in the atomic specification, and waits (first poll `Pending`) exactly when it is not; `try_lock`
+returns a guard under the same condition. What is pending on other keys never enters the answer. -/
+theorem C03_plain_lock_only_own_key (kind : Kind) (cs : List Call) (h k h0 : Nat) :
+    let a := cs.foldl (fun a c => (a.exec c).1) (Api.init kind)
+    a.s.hs h = none →
+    ((a.exec (.lock .wait h k .none h0)).2.res.isGuard = true ↔ (absSpec a.s).free k = true) ∧
+    ((match (a.exec (.lock .wait h k .none h0)).2.res with | .pending => True | _ => False) ↔ (absSpec a.s).free k = false) ∧
+    ((a.exec (.lock .try h k .none h0)).2.res.isGuard = true ↔ (absSpec a.s).free k = true) := by
+  intro a hf
+  have hi := (ainv_execs cs _ (ainv_init kind)).inv
+  exact ⟨(lock_wait_plain a hi h k h0 hf).1, (lock_wait_plain a hi h k h0 hf).2, lock_try_plain a hi h k h0 hf⟩
+
+/-- non-vacuity: key 1 held by guard 1 with waiter 2 queued; a wait on key 1 is pending, a wait on key 2 gets its guard -/
+example :
+    let a0 : Api := Api.init .hashMap
+    let a1 := ((a0.exec (.lock .wait 1 1 .none 100)).1.exec (.lock .wait 2 1 .none 100)).1
+    (a1.exec (.lock .wait 3 1 .none 100)).2.res.isGuard = false ∧ (a1.exec (.lock .wait 3 2 .none 100)).2.res.isGuard = true ∧
+    (absSpec a1.s).free 1 = false ∧ (absSpec a1.s).free 2 = true := by decide
 
 end Lockable
